@@ -395,8 +395,78 @@ def run(S):
         'AttrStore::new, convert_markup/expr/pattern and the renderer are opaque',
         'Source::find(span) returns the unique node with that span (spans are unique per node)',
     ]
+    # a cover node that is a whitespace token or a word is converted by convert_space / convert_parbreak / convert_text alone (whole-document
+    # formatting never calls them for a paragraph break): the token must come back as the same kind of break, for every configuration
+    from . import markup
+    ftok = markup.explore_tokens(S, 3 if S.tier == 'quick' else 4, prefix='C13')
+    groups = {}
+    for lab, info in ftok:
+        if lab.startswith('C13:'):
+            groups.setdefault(lab, []).append(info)
+    for lab, infos in groups.items():
+        hit = None
+        for info in infos[:6]:
+            hit = confirm_token_range(S, info)
+            if hit:
+                break
+        if hit:
+            S.violation(lab, '%s: %s' % (lab, hit['what']), dict(api=hit, model=infos[0]))
+        else:
+            S.inconclusive.append('%s: no solver model reproduced natively through format_source_range (%r)' % (lab, infos[0]))
+    if not groups:
+        validate_corpus(S, 'range over whitespace tokens', [], lambda: token_range_sweep(S))
     return S.finish(level='other', explanation=EXPLANATION,
                     trusted=['mirsym encoder', 'std string contracts', 'typst-syntax kind tables extracted from the real crate', 'LinkedNode offsets = prefix sums of child lengths'])
+
+
+def newline_count(ws):
+    n = 0
+    i = 0
+    while i < len(ws):
+        if ws[i] == '\r' and i + 1 < len(ws) and ws[i + 1] == '\n':
+            n += 1
+            i += 2
+            continue
+        if ws[i] in '\n\x0b\x0c\r\x85\u2028\u2029':
+            n += 1
+        i += 1
+    return n
+
+
+def confirm_token_range(S, info, bounds=None):
+    """format a range that lies inside the whitespace between two words: what comes back must break the text as the token did"""
+    ws = info.get('text') or ''
+    if info.get('token') not in ('Parbreak', 'Space') or not ws:
+        return None
+    blub = info.get('blank_lines_upper_bound')
+    for src in ('first' + ws + 'second\n', '#[first' + ws + 'second]\n'):
+        if S.driver.call('erroneous', hexs(src))[1] == '1':
+            continue
+        pre = len(src.split(ws)[0].encode('utf-8'))
+        wl = len(ws.encode('utf-8'))
+        for bl in ([min(blub, 1 << 20)] if isinstance(blub, int) else []) + [0, 1, 2]:
+            for (a, b) in ((pre + 1, pre + 1), (pre, pre + wl), (pre + 1, pre + wl)):
+                if a > pre + wl or (ord(ws[0]) > 127 and a == pre + 1):
+                    continue
+                r = S.driver.call('format_range', hexs(src), a, b, 80, 2, bl)
+                if r[0] != 'ok':
+                    continue
+                rs, re_ = int(r[1]), int(r[2])
+                old = src.encode('utf-8')[rs:re_].decode('utf-8', 'replace')
+                new = unhexs(r[3])
+                if old.strip(''.join(WS_SET)) == '' and old != '' and min(newline_count(old), 2) != min(newline_count(new), 2) or (old.strip(''.join(WS_SET)) == '' and newline_count(old) >= 2 and newline_count(new) != newline_count(old)):
+                    return dict(api='Typstyle::format_source_range', source=src, start=a, end=b, blank_lines_upper_bound=bl,
+                                what='formatting the range %d..%d of %s (blank_lines_upper_bound = %d) replaces %s by %s: a paragraph break / line break / blank changes its kind or its number of line feeds' % (
+                                    a, b, show(src), bl, show(old), show(new)))
+    return None
+
+
+def token_range_sweep(S):
+    for ws in ('\n\n', '\n\n\n', '\r\n\r\n', '\n', ' ', '\r\r', '\n \n'):
+        w = confirm_token_range(S, dict(token='Parbreak', text=ws))
+        if w:
+            return w
+    return None
 
 
 CORPUS = [
